@@ -1,0 +1,56 @@
+//! C19 adapter, identify part: the prost-generated decoder and the address filter inputs.
+
+use super::identify_schema;
+use crate::verif::hexd;
+
+use multiaddr::{Multiaddr, Protocol};
+use prost::Message;
+
+fn opt(b: &Option<Vec<u8>>) -> String {
+    b.as_ref().map(|b| hexd(b)).unwrap_or_else(|| "none".into())
+}
+
+fn opts(b: &Option<String>) -> String {
+    b.as_ref().map(|b| hexd(b.as_bytes())).unwrap_or_else(|| "none".into())
+}
+
+/// What identify's filter looks at for one address: `x` invalid, `e` empty, `n` no trailing
+/// `/p2p`, `p<multihash hex>` trailing `/p2p`.
+pub(crate) fn addr_info(a: &[u8]) -> String {
+    match Multiaddr::try_from(a.to_vec()) {
+        Err(_) => "x".into(),
+        Ok(m) if m.is_empty() => "e".into(),
+        Ok(m) => match m.iter().last() {
+            Some(Protocol::P2p(id)) => format!("p{}", crate::verif::hex(&id.to_bytes())),
+            _ => "n".into(),
+        },
+    }
+}
+
+/// Canonical dump of `identify_schema::Identify::decode`.
+pub(crate) fn pb(bytes: &[u8]) -> String {
+    match identify_schema::Identify::decode(bytes) {
+        Err(_) => "err".into(),
+        Ok(m) => {
+            let la: Vec<String> = m.listen_addrs.iter().map(|a| hexd(a)).collect();
+            let pr: Vec<String> = m.protocols.iter().map(|a| hexd(a.as_bytes())).collect();
+            let mut infos: Vec<String> = Vec::new();
+            for a in m.listen_addrs.iter().chain(m.observed_addr.iter()) {
+                let item = format!("{}={}", hexd(a), addr_info(a));
+                if !infos.contains(&item) {
+                    infos.push(item);
+                }
+            }
+            format!(
+                "ok pv={} av={} pk={} la=[{}] oa={} pr=[{}] #addrs {}",
+                opts(&m.protocol_version),
+                opts(&m.agent_version),
+                opt(&m.public_key),
+                la.join(";"),
+                opt(&m.observed_addr),
+                pr.join(";"),
+                infos.join(",")
+            )
+        }
+    }
+}
